@@ -185,8 +185,23 @@ GenFaults(s) ==
                    r \in {sh.sp, "a03"}}
            : sh \in {x \in Rng(s.shards) : x.status = SCompleted /\ HasOrder(s, x.order) /\ x.id % 2 = s.h % 2}}
 
+\* timeout: fault-sequence nondeterminism. One or two orders are handed to providers; each assigned provider either
+\* completes or stays silent at each attempt; time only moves from one scheduled height to the next.  Every formula
+\* (C12_Rescheduled, C12_ResolvedByBound, C12_ReplicasAccounted, C05_Timeout*, C04 conservation ...) holds on every path:
+\* bounded liveness of the timeout machinery over ALL silence patterns up to the depth.
+TimeoutEvents(s) ==
+    (IF s.oc <= 2 THEN
+        {[E0 EXCEPT !.kind = "Store", !.creator = Gateway, !.provider = Gateway, !.gw = Gateway, !.owner = "d1", !.signer = "d1",
+                    !.data = d, !.commit = d, !.cseg = <<d>>, !.op = 1, !.dur = du, !.replica = r, !.timeout = t, !.size = 1000,
+                    !.alias = "al" \o d] : d \in {x \in {"D1", "D2"} : ~HasMeta(s, x)}, du \in Durs, r \in Replicas, t \in Timeouts}
+     ELSE {})
+    \cup Completes(s)
+    \cup (LET nx == NextScheduled(Cfg, Work(s)) IN
+          IF nx = -1 \/ nx - s.h > 12000 THEN {} ELSE {[E0 EXCEPT !.kind = "Blocks", !.n = nx - s.h + 1]})
+
 Events(s) ==
-    CASE Family = "did"    -> DidEvents(s)
+    CASE Family = "timeout" -> TimeoutEvents(s)
+      [] Family = "did"    -> DidEvents(s)
       [] Family = "super"  -> SuperEvents(s)
       [] Family = "reward" -> RewardEvents(s)
       [] Family = "auth"   -> AuthEvents(s)
